@@ -56,6 +56,8 @@ class NPF:
         return real_np.frompyfunc(lambda v: sym_log_product(v) if isinstance(v, Sym) else math.log(v), 1, 1)(a)
 
     def linspace(self, a, b, n):
+        if not isinstance(a, Sym) and not isinstance(b, Sym):
+            return self.array([float(v) for v in real_np.linspace(float(a), float(b), n)])     # numpy's own points (the end point is exactly b)
         return self.array([a + (b - a) * i / (n - 1) for i in range(n)])
 
 
@@ -312,7 +314,10 @@ class ResampleInterp:
     made = []
 
     def __init__(self, x, y, kind='linear', **k):
-        self.x, self.y, self.kind = [float(v) for v in x], list(y), kind
+        # the samples are replaced by arbitrary reals (a cut: the clause below is about the resampling and holds for any samples, the
+        # ones the loop computed included; with the solved cell temperatures inside, z3 gave up on 4 of 12 boreholes)
+        self.x, self.kind = [float(v) for v in x], kind
+        self.y = [Sym(Engine.cur.fresh('sample')) for _ in y]
         ResampleInterp.made.append(self)
 
     def __call__(self, v):
@@ -367,7 +372,8 @@ def published_fn(k, cells, twin=False):
             raw = itp.y
             premise = conj([raw[i] <= raw[i + 1] for i in range(len(raw) - 1)])
             pub = list(pub)
-            concl = conj([pub[i] <= pub[i + 1] + 1e-12 for i in range(len(pub) - 1)] + [pub[0] >= raw[0] - 1e-12, pub[-1] <= raw[-1] + 1e-12, len(pub) == 30])
+            # 1e-6: the interpolation weights are binary64 quotients (a weight of 1 + 2e-16 times a difference of thousands)
+            concl = conj([pub[i] <= pub[i + 1] + 1e-6 for i in range(len(pub) - 1)] + [pub[0] >= raw[0] - 1e-6, pub[-1] <= raw[-1] + 1e-6, len(pub) == 30])
             cs.append(implies(premise, concl))
         return conj(cs)
     return fn
